@@ -93,6 +93,9 @@ def check_snap(kind, arg):
 DENOMS = (1, 2, 3, 4, 5, 7, 32, 48, 64, 96, 192, 1000)
 RATIONALS = sorted({Fraction(n, d) for n in range(-6, 7) for d in DENOMS})
 OPS = ("+", "-", "*", "/", "%", "divmod")
+# magnitudes: numerators and denominators in the thousands, millions and beyond (exactness must not depend on size)
+BIG = [Fraction(1, 1000), Fraction(1001), Fraction(1000001), Fraction(1, 1000001), Fraction(123456789, 1000), Fraction(-98765, 4321),
+       Fraction(10**12 + 1, 48), Fraction(1, 10**9), Fraction(2**40, 3), Fraction(-(10**18) - 1, 7)]
 
 
 def apply(op, a, b):
@@ -166,6 +169,9 @@ def check_unary(x):
 # -- 4. BeatValues ----------------------------------------------------------------
 
 VALUE_STRS = ("0.000001", "1000", "1E+3", "120", "0.5", "-0.25", "60.000", "123.456789")
+# values with ten and more significant digits (exact decimals whatever their length)
+VALUE_STRS_LONG = ("1000.000001", "123456.789012345", "0.00000000000001", "99999999999.999", "1E-12", "12345678901234567890.5",
+                   "150.00000000000000000000000001", "0.1234567891")
 PADS = ("", " ", "\n", "\r\n ")
 
 
@@ -342,6 +348,25 @@ def explore_shard(acc, shard):
         for y in RATIONALS:
             run_case(acc, "arith", {"kind": "pair", "x": str(x), "y": str(y)})
         acc.sample("3 arithmetic", {"kind": "pair", "x": str(x), "y": str(RATIONALS[-1])})
+    elif kind == "bigpairs":
+        small = [r for r in RATIONALS if r.denominator in (1, 3, 48, 1000) and abs(r.numerator) in (1, 5)]
+        for x in BIG:
+            run_case(acc, "arith", {"kind": "unary", "x": str(x)})
+            for y in BIG + small:
+                run_case(acc, "arith", {"kind": "pair", "x": str(x), "y": str(y)})
+                run_case(acc, "arith", {"kind": "pair", "x": str(y), "y": str(x)})
+        acc.outcome("operands with large numerators / denominators")
+        acc.sample("3 arithmetic", {"kind": "pair", "x": str(BIG[0]), "y": str(BIG[1])})
+    elif kind == "longvalues":
+        _, seed = shard
+        beats = event_beats(seed)
+        for v in VALUE_STRS_LONG:
+            run_case(acc, "events", {"kind": "events", "events": [[str(beats[0]), v]]})
+            for v2 in VALUE_STRS_LONG + VALUE_STRS[:3]:
+                run_case(acc, "events", {"kind": "events", "events": [[str(beats[0]), v], [str(beats[3]), v2]]})
+                run_case(acc, "events", {"kind": "events", "events": [[str(beats[1]), v2], [str(beats[4]), v]]})
+        acc.outcome("event value with ten or more significant digits")
+        acc.sample("4 event lists", {"kind": "events", "events": [[str(beats[0]), VALUE_STRS_LONG[1]]]})
     elif kind == "events":
         _, first, maxlen, seed = shard
         evs = [(b, v) for b in event_beats(seed) for v in VALUE_STRS]
@@ -402,6 +427,8 @@ def explore(run):
     shards.append(("events", None, 0, run.seed))
     for i in range(nev):
         shards.append(("events", i, 3 if run.thorough() else 2, run.seed))
+    shards.append(("bigpairs",))
+    shards.append(("longvalues", run.seed))
     for n in (1, 2, 3):
         shards.append(("padding", n))
     for sfk in ("sm", "ssc"):
@@ -418,8 +445,11 @@ def explore(run):
         f"event lists of <= {3 if run.thorough() else 2} events over 5 beats x 8 decimal spellings; 16^n whitespace arrangements around n<=3 rows; "
         "TimingData over SM/SSC x BPMS/STOPS/DELAYS/WARPS/OFFSET string pools (absent, empty, padded) incl. FREEZES. "
         "A state is one enumerated point; non-trivial = not a whole beat / not the empty list."
+        + " Magnitudes: 10 rationals with numerators / denominators of 10^3 .. 10^18 against each other and small ones under all operators and operand types; event values of 10 .. 29 significant digits."
     )
     run.assumptions = ["Python's fractions/decimal are the arithmetic reference", "exact ties between two ticks may round either way (Python rounds half to even)"]
+    core.require(acc.outcomes["operands with large numerators / denominators"] > 0, "no big operands")
+    core.require(acc.outcomes["event value with ten or more significant digits"] > 0, "no long values")
     core.require(acc.outcomes["exact tie between two ticks"] > 0, "no tie case")
     core.require(acc.outcomes["blank timing string"] > 0, "no blank string case")
     core.require(acc.outcomes["SM stops spelled FREEZES"] > 0, "no FREEZES case")
